@@ -95,3 +95,21 @@ Theorem C09_webseed_assertions_unreachable : forall s, WInv s ->
   (forall obs s1 b e, ws_check s obs = Some s1 -> obs = Some (b, e) -> (b <? e) && range_owned s1 b e None = true).
 Proof. exact no_ownership_panic. Qed.
 Print Assumptions C09_webseed_assertions_unreachable.
+
+(* ---- file edges of sequential mode (Edges.v, kind 905) ---- *)
+From RainV Require Import Geometry Edges.
+(* the piece holding the first byte of a file is marked as a head piece and the piece holding its
+   last byte as a tail piece, for every layout and every file size *)
+Theorem C09_file_end_pieces_are_marked : forall ps p s, In p ps -> In s (psecs p) -> spad s = false ->
+  (soff s = 0 -> fst (mark_piece ps p) = true) /\
+  (soff s + slen s = file_size ps (sfile s) -> snd (mark_piece ps p) = true).
+Proof. exact first_and_last_piece_marked. Qed.
+Print Assumptions C09_file_end_pieces_are_marked.
+
+(* and only pieces within 8 MiB of an end of one of their files are marked *)
+Theorem C09_marked_pieces_are_near_a_file_end : forall ps p,
+  (fst (mark_piece ps p) = true -> exists s, In s (psecs p) /\ spad s = false /\ soff s < Z.max max_edge 1) /\
+  (snd (mark_piece ps p) = true -> exists s, In s (psecs p) /\ spad s = false /\
+                                             file_size ps (sfile s) - Z.max max_edge 1 < soff s + slen s).
+Proof. exact marked_piece_is_near_an_end. Qed.
+Print Assumptions C09_marked_pieces_are_near_a_file_end.
